@@ -18,7 +18,7 @@ use serde_json::{json, Value};
 use std::time::Duration;
 
 pub fn meta(m: &mut PropMeta) {
-    m.rule = "model programs (each of the 40 constructs alone in 4 module scopes, all ordered pairs of constructs, all 40 constructs packed in one file, documentation-carrying operations with every @param/@returns shape incl. a return member named like a parameter, enumerator values at the extremes of every underlying type, discriminants 0 and 2^31-1, tags 0 and 2^31-1, anonymous types nested to depth 3, aliases of named and anonymous types) x every split of the 2-3 files into sources and references in every order x 4 generator argument lists; each run executes the real slicec binary with a capturing fake generator. Oracle: the captured stdin must end with the generator's own arguments; the prefix is decoded field by field by an independent decoder written from slice/Compiler (bit-sequence byte for the one optional field, fields in schema order, variants as varint discriminant + payload, tag-end markers) and must be consumed completely; the decoded value, with numeric type ids inlined structurally, equals the request computed from the model (paths, modules, attributes with arguments, identifiers, flags, tags, values, type structure, comments, per-parameter and per-return documentation, source/reference split, all orders); every numeric id refers to an earlier anonymous-type symbol of the same file; every named type id, base and resolved link exists in a transmitted file. non-trivial = the program has an anonymous type, a comment or a reference file; distinct = distinct (files, split, arguments).";
+    m.rule = "model programs (each of the 40 constructs alone in 4 module scopes, all ordered pairs of constructs, all 40 constructs packed in one file, documentation-carrying operations with every @param/@returns shape incl. a return member named like a parameter, enumerator values at the extremes of every underlying type, discriminants 0 and 2^31-1, tags 0 and 2^31-1, anonymous types nested to depth 3, aliases of named and anonymous types) x every split of the 2-3 files into sources and references in every order x 4 generator argument lists (none, one pair, three pairs with separators and non-ASCII text inside, a key without a value followed by one key given twice); each run executes the real slicec binary with a capturing fake generator. Oracle: the captured stdin must end with the generator's own arguments; the prefix is decoded field by field by an independent decoder written from slice/Compiler (bit-sequence byte for the one optional field, fields in schema order, variants as varint discriminant + payload, tag-end markers) and must be consumed completely; the decoded value, with numeric type ids inlined structurally, equals the request computed from the model (paths, modules, attributes with arguments, identifiers, flags, tags, values, type structure, comments, per-parameter and per-return documentation, source/reference split, all orders); every numeric id refers to an earlier anonymous-type symbol of the same file; every named type id, base and resolved link exists in a transmitted file. non-trivial = the program has an anonymous type, a comment or a reference file; distinct = distinct (files, split, arguments).";
     m.explanation = "process-level enumeration with a capturing generator; independent schema decoder; expected request computed from the model";
     m.quick_bound = "constructs alone x 4 scopes x 4 splits x 4 argument lists; all construct pairs; packed files; 3-file splits";
     m.thorough_bound = "same plus all construct pairs x 4 splits";
@@ -641,7 +641,8 @@ fn arg_lists() -> Vec<Vec<(String, String)>> {
         vec![],
         vec![("k".into(), "v".into())],
         vec![("a,b".into(), "x=y".into()), ("é".into(), "".into()), ("last".into(), "with space".into())],
-        vec![("keyonly".into(), "".into())],
+        // (a key without a value, and a key given twice: the arguments are a list, every entry is transmitted)
+        vec![("keyonly".into(), "".into()), ("opt".into(), "1".into()), ("opt".into(), "2".into())],
     ]
 }
 
